@@ -31,9 +31,10 @@ CONSTANTS NS,        \* matrix sizes
           Mode,      \* "canon": the canonical history below; "hist": every history of MaxHist calls
           MaxHist
 
-VARIABLES n, P, pal, kind, par, F,   \* the chosen input (constant along a behaviour)
-          life, cur, atInit, hist
-vars == <<n, P, pal, kind, par, F, life, cur, atInit, hist>>
+VARIABLES n, P, pal, kind, par, F,   \* the chosen input (constant along a behaviour, except par.w: set_omega)
+          life, cur, atInit, hist,
+          wAt                          \* relaxation parameter at the time of the last init_numeric (construction before)
+vars == <<n, P, pal, kind, par, F, life, cur, atInit, wAt, hist>>
 
 \* ---- inputs ------------------------------------------------------------------------------------------
 OffPos(nn) == {ij \in (1..nn) \X (1..nn) : ij[1] # ij[2]}
@@ -171,13 +172,19 @@ RawOp(kd, pr, c, b) ==
     [] kd = "diagonal" -> VMul(DOf(c), b)
     [] kd = "matrix"   -> MatVec(n, A, b)
 Op(c, b) == Filt(RawOp(kind, par, c, b), F)
+OpW(w, c, b) == Filt(RawOp(kind, [par EXCEPT !.w = w], c, b), F)
 \* what PolynomialPrecond computes between an update and the next init_numeric
-PolyMixed(a, c, b) == Filt(PolyOp(n, AOf(a), AOf(c), par.w, par.m, b, F), F)
+PolyMixedW(w, a, c, b) == Filt(PolyOp(n, AOf(a), AOf(c), w, par.m, b, F), F)
+PolyMixed(a, c, b) == PolyMixedW(par.w, a, c, b)
 
-\* results allowed for Apply(b) when the factorisation / cached data stem from values a and the matrix holds values c
+\* results allowed for Apply(b) when the factorisation / cached data stem from values a and relaxation parameter wAt
+\* and the matrix now holds values c and the parameter is par.w: a preconditioner may cache (Jacobi, polynomial: the
+\* scaled inverse diagonal is built in init_numeric) or read matrix and parameter live (SOR, SSOR, scale); the
+\* specification allows either until the next init_numeric, after which only the current values are allowed.
+\* A mixture (sweeps with one parameter, scaling with the other) is never allowed.
 Allowed(a, c, b) ==
-  IF a = c THEN {Op(c, b)}
-  ELSE {Op(a, b), Op(c, b)} \cup (IF kind = "poly" THEN {PolyMixed(a, c, b)} ELSE {})
+  {OpW(w, x, b) : w \in {wAt, par.w}, x \in {a, c}}
+  \cup (IF kind = "poly" /\ a # c THEN {PolyMixedW(w, a, c, b) : w \in {wAt, par.w}} ELSE {})
 
 \* the input lies in the exact domain: every result on every test vector is dyadic
 ExactInput(nn, pat, pl, kd, pr, FF) ==
@@ -201,28 +208,40 @@ Init ==
   /\ P \in {pat \in SUBSET OffPos(n) : Cardinality(pat) >= MinOff /\ Cardinality(pat) <= MaxOff}
   /\ pal \in Pals /\ kind \in Kinds /\ par \in Params(kind) /\ F \in FilterSets(n)
   /\ ExactInput(n, P, pal, kind, par, F)
-  /\ life = "created" /\ cur = 1 /\ atInit = 0 /\ hist = <<>>
+  /\ life = "created" /\ cur = 1 /\ atInit = 0 /\ hist = <<>> /\ wAt = par.w
 
-Canon == <<"IS", "IN", "AP", "UP", "AP", "IN", "AP", "DN", "UP", "IN", "AP", "DN", "DS">>
+Canon == <<"IS", "IN", "AP", "UP", "AP", "IN", "AP", "SO", "AP", "IN", "AP", "DN", "UP", "IN", "AP", "DN", "DS">>
 Enabled(op) == IF Mode = "canon" THEN Len(hist) < Len(Canon) /\ Canon[Len(hist) + 1] = op
                ELSE Len(hist) < MaxHist
 
-Rec(op, exp) == hist' = Append(hist, [op |-> op, exp |-> exp])
+RecW(op, exp, w) == hist' = Append(hist, [op |-> op, exp |-> exp, w |-> w])
+Rec(op, exp) == RecW(op, exp, par.w)
 
-InitSymbolic == Enabled("IS") /\ life = "created" /\ life' = "symbolic" /\ Rec("IS", <<>>) /\ UNCHANGED <<n, P, pal, kind, par, F, cur, atInit>>
-InitNumeric  == Enabled("IN") /\ life \in {"symbolic", "numeric"} /\ life' = "numeric" /\ atInit' = cur /\ Rec("IN", <<>>)
+InitSymbolic == Enabled("IS") /\ life = "created" /\ life' = "symbolic" /\ Rec("IS", <<>>) /\ UNCHANGED <<n, P, pal, kind, par, F, cur, atInit, wAt>>
+InitNumeric  == Enabled("IN") /\ life \in {"symbolic", "numeric"} /\ life' = "numeric" /\ atInit' = cur /\ wAt' = par.w /\ Rec("IN", <<>>)
                 /\ UNCHANGED <<n, P, pal, kind, par, F, cur>>
 \* one Apply call per test vector; exp[k] = set of allowed results for test vector k
 Apply        == Enabled("AP") /\ life = "numeric"
                 /\ Rec("AP", Tup(n + 2, LAMBDA k : Allowed(atInit, cur, Tests(n)[k])))
-                /\ UNCHANGED <<n, P, pal, kind, par, F, life, cur, atInit>>
-UpdateValues == Enabled("UP") /\ cur' = 3 - cur /\ Rec("UP", <<>>) /\ UNCHANGED <<n, P, pal, kind, par, F, life, atInit>>
+                /\ UNCHANGED <<n, P, pal, kind, par, F, life, cur, atInit, wAt>>
+UpdateValues == Enabled("UP") /\ cur' = 3 - cur /\ Rec("UP", <<>>) /\ UNCHANGED <<n, P, pal, kind, par, F, life, atInit, wAt>>
 DoneNumeric  == Enabled("DN") /\ life = "numeric" /\ life' = "symbolic" /\ atInit' = 0 /\ Rec("DN", <<>>)
-                /\ UNCHANGED <<n, P, pal, kind, par, F, cur>>
+                /\ UNCHANGED <<n, P, pal, kind, par, F, cur, wAt>>
 DoneSymbolic == Enabled("DS") /\ life = "symbolic" /\ life' = "created" /\ Rec("DS", <<>>)
-                /\ UNCHANGED <<n, P, pal, kind, par, F, cur, atInit>>
+                /\ UNCHANGED <<n, P, pal, kind, par, F, cur, atInit, wAt>>
 
-Next == InitSymbolic \/ InitNumeric \/ Apply \/ UpdateValues \/ DoneNumeric \/ DoneSymbolic
+\* set_omega(w): public setter of Jacobi, SOR, SSOR, polynomial and scale preconditioners, callable in every life-cycle state;
+\* the new parameter must keep the input inside the exact domain.  Kinds without the setter take a no-op step.
+HasOmega == kind \in {"jacobi", "sor", "ssor", "poly", "scale"}
+OmegaCand == {q \in Params(kind) : q.m = par.m /\ q.p = par.p /\ q.w # par.w /\ ExactInput(n, P, pal, kind, q, F)}
+\* canonical histories take one (fixed) other parameter, free histories every other parameter; no candidate inside the exact domain: no-op
+SetOmega     == /\ Enabled("SO") /\ HasOmega /\ OmegaCand # {}
+                /\ \E q \in (IF Mode = "canon" THEN {CHOOSE r \in OmegaCand : TRUE} ELSE OmegaCand) :
+                       par' = q /\ RecW("SO", <<>>, q.w)
+                /\ UNCHANGED <<n, P, pal, kind, F, life, cur, atInit, wAt>>
+SetOmegaNop  == Enabled("SO") /\ Rec("SO", <<>>) /\ UNCHANGED <<n, P, pal, kind, par, F, life, cur, atInit, wAt>>
+
+Next == InitSymbolic \/ InitNumeric \/ Apply \/ UpdateValues \/ DoneNumeric \/ DoneSymbolic \/ SetOmega \/ ((~HasOmega \/ OmegaCand = {}) /\ SetOmegaNop)
 Spec == Init /\ [][Next]_vars
 
 \* ---- Part 3: sanity laws of the definitions (evaluated on every generated input) ----------------------------
@@ -264,11 +283,11 @@ IluInfo(c) == LET Q == IluPattern(n, P, par.p)  LU == IluFactor(n, AOf(c), Q)
               IN [pat |-> Tup(n, LAMBDA i : Tup(n, LAMBDA j : IF <<i, j>> \in Q THEN 1 ELSE 0)),
                   lu |-> MatMul(n, IluL(n, LU), IluU(n, LU))]
 Emit == Final =>
-  PrintT(ToJson([n |-> n, kind |-> kind, w |-> par.w, m |-> par.m, p |-> par.p, F |-> SetSeq(F),
+  PrintT(ToJson([n |-> n, kind |-> kind, w |-> hist[1].w, m |-> par.m, p |-> par.p, F |-> SetSeq(F),
                  pat |-> Tup(n, LAMBDA i : Tup(n, LAMBDA j : IF i = j \/ <<i, j>> \in P THEN 1 ELSE 0)),
                  A1 |-> AOf(1), A2 |-> AOf(2), d1 |-> DOf(1), d2 |-> DOf(2), tests |-> Tests(n),
                  ilu1 |-> IF kind = "ilu" THEN IluInfo(1) ELSE [pat |-> <<>>, lu |-> <<>>],
                  ilu2 |-> IF kind = "ilu" THEN IluInfo(2) ELSE [pat |-> <<>>, lu |-> <<>>],
-                 steps |-> [s \in 1..Len(hist) |-> [op |-> hist[s].op,
+                 steps |-> [s \in 1..Len(hist) |-> [op |-> hist[s].op, w |-> hist[s].w,
                              exp |-> [k \in 1..Len(hist[s].exp) |-> SetSeq(hist[s].exp[k])]]]]))
 =============================================================================
